@@ -10,6 +10,7 @@ package main
 import (
 	"bufio"
 	"bytes"
+	"crypto/sha256"
 	"encoding/hex"
 	"encoding/json"
 	"fmt"
@@ -36,7 +37,15 @@ type op struct {
 	Size int `json:"payload_bytes"`
 }
 
-func history(bulk bool) []op {
+// kinds: "" the base history; "bulk" base + 70 x 1 MiB; "edge" values whose MARSHALLED length sits on the
+// 1 MiB boundary where the store switches from in-tree values to the value log (125 + payload bytes for one
+// signature, 191 for two), with overwrites across the boundary in both directions.
+func history(kind string) []op {
+	if kind == "edge" {
+		const MiB = 1 << 20
+		return []op{{0, 0, MiB - 125 - 1}, {1, 0, MiB - 125}, {2, 0, MiB - 125 + 1}, {0, 1, MiB - 191}, {1, 1, MiB - 191 - 1}, {3, 0, 10}, {2, 1, 7}}
+	}
+	bulk := kind == "bulk"
 	h := []op{{0, 0, 1}, {1, 0, 900}, {2, 0, 4096}, {0, 1, 1}, {3, 0, 64}, {1, 1, 900}, {4, 0, 2000}, {0, 2, 5}}
 	if bulk {
 		for i := 0; i < 70; i++ {
@@ -75,7 +84,10 @@ func child(args []string) {
 	from, _ := strconv.Atoi(args[1])
 	to, _ := strconv.Atoi(args[2])
 	mode := args[3] // selfkill | close | hang
-	bulk := len(args) > 4 && args[4] == "bulk"
+	bulk := ""
+	if len(args) > 4 {
+		bulk = args[4]
+	}
 	h := history(bulk)
 	out := bufio.NewWriterSize(os.Stdout, 0)
 	say := func(s string) { os.Stdout.WriteString(s + "\n") }
@@ -124,7 +136,7 @@ type dump struct {
 	Errs    map[string]string `json:"errs,omitempty"`
 }
 
-func verifier(dir string, bulk bool) {
+func verifier(dir string, bulk string) {
 	res := dump{Vals: map[string]string{}, Errs: map[string]string{}}
 	d, err := db.Open(dir)
 	if err != nil {
@@ -143,13 +155,18 @@ func verifier(dir string, bulk bool) {
 			case err != nil:
 				res.Errs[fmt.Sprint(o.ID)] = err.Error()
 			default:
-				res.Vals[fmt.Sprint(o.ID)] = hex.EncodeToString(b[:imin(len(b), 200)]) + fmt.Sprintf("/%d", len(b))
+				res.Vals[fmt.Sprint(o.ID)] = fingerprint(b)
 			}
 		}
 		d.Close()
 	}
 	json.NewEncoder(os.Stdout).Encode(res)
 	os.Exit(0)
+}
+
+// fingerprint: readable prefix, length and a digest of ALL bytes
+func fingerprint(b []byte) string {
+	return hex.EncodeToString(b[:imin(len(b), 40)]) + fmt.Sprintf("/%d/%x", len(b), sha256.Sum256(b))
 }
 
 func imin(a, b int) int {
@@ -171,16 +188,16 @@ type scenario struct {
 
 func expectVal(o op) string {
 	b, _ := mkVAA(o).Marshal()
-	return hex.EncodeToString(b[:imin(len(b), 200)]) + fmt.Sprintf("/%d", len(b))
+	return fingerprint(b)
 }
 
 // check reopens dir and compares with acked (number of acknowledged stores) and inflight (index of
 // a store that may or may not have happened, -1 none).
-func check(self, dir string, bulk bool, acked int, inflight []int, sc scenario) {
+func check(self, dir string, bulk string, acked int, inflight []int, sc scenario) {
 	atomic.AddInt64(&opens, 1)
 	args := []string{"verify", dir}
-	if bulk {
-		args = append(args, "bulk")
+	if bulk != "" {
+		args = append(args, bulk)
 	}
 	out, err := exec.Command(self, args...).Output()
 	var d dump
@@ -246,10 +263,10 @@ func generalise(s string) string {
 
 // runChild runs the child (optionally under strace with a kill at the n-th syscall of the set) and
 // returns the number of ACKs seen and whether it died by signal.
-func runChild(self, dir string, from, to int, mode string, bulk bool, straceN int) (acks int, killed bool, phases []string, raw string) {
+func runChild(self, dir string, from, to int, mode string, bulk string, straceN int) (acks int, killed bool, phases []string, raw string) {
 	args := []string{"child", dir, fmt.Sprint(from), fmt.Sprint(to), mode}
-	if bulk {
-		args = append(args, "bulk")
+	if bulk != "" {
+		args = append(args, bulk)
 	}
 	var cmd *exec.Cmd
 	if straceN > 0 {
@@ -380,7 +397,7 @@ func tornFamily(self, base string, h []op, step int, jobs *[]func()) *int64 {
 							part = "last"
 						}
 						sc := scenario{Name: "torn image of one store", Steps: []string{fmt.Sprintf("stores 0..%d acknowledged; store %d copied only partly: the %s part of bytes [%d,%d) of %s up to/from offset %d is new", k-1, k-1, part, lo, hi, name, p)}, Acked: k - 1}
-						check(self, dir, false, k-1, []int{k - 1}, sc)
+						check(self, dir, "", k-1, []int{k - 1}, sc)
 					})
 				}
 			}
@@ -394,7 +411,11 @@ func main() {
 		child(os.Args[2:])
 	}
 	if len(os.Args) > 1 && os.Args[1] == "verify" {
-		verifier(os.Args[2], len(os.Args) > 3 && os.Args[3] == "bulk")
+		kind := ""
+		if len(os.Args) > 3 {
+			kind = os.Args[3]
+		}
+		verifier(os.Args[2], kind)
 	}
 	r = ev.Start("C16", "fault_enumeration")
 	self, _ := os.Executable()
@@ -406,7 +427,7 @@ func main() {
 		d := filepath.Join(base, fmt.Sprintf("d%d", atomic.AddInt64(&dirN, 1)))
 		return d
 	}
-	h := history(false)
+	h := history("")
 	var jobs []func()
 	var mu sync.Mutex
 	lastAck := map[int]bool{}
@@ -418,7 +439,7 @@ func main() {
 		jobs = append(jobs, func() {
 			dir := newDir()
 			defer os.RemoveAll(dir)
-			acks, killed, _, raw := runChild(self, dir, 0, k, "selfkill", false, 0)
+			acks, killed, _, raw := runChild(self, dir, 0, k, "selfkill", "", 0)
 			atomic.AddInt64(&kills, 1)
 			sc := scenario{Name: "kill at store boundary", Steps: []string{fmt.Sprintf("stores 0..%d then SIGKILL", k)}, Acked: acks}
 			if !killed || acks != k {
@@ -426,7 +447,7 @@ func main() {
 				return
 			}
 			note(acks)
-			check(self, dir, false, acks, nil, sc)
+			check(self, dir, "", acks, nil, sc)
 			// chain: continue in two more links on the same directory
 			pos := k
 			for link := 0; link < 3 && pos < len(h); link++ {
@@ -434,7 +455,7 @@ func main() {
 				if next > len(h) {
 					next = len(h)
 				}
-				a2, killed2, _, raw2 := runChild(self, dir, pos, next, "selfkill", false, 0)
+				a2, killed2, _, raw2 := runChild(self, dir, pos, next, "selfkill", "", 0)
 				atomic.AddInt64(&kills, 1)
 				sc.Steps = append(sc.Steps, fmt.Sprintf("reopen, stores %d..%d then SIGKILL", pos, next))
 				sc.Acked = a2
@@ -442,7 +463,7 @@ func main() {
 					r.Violation("store does not reopen / accept writes after a kill (chained cycle)", raw2, sc)
 					return
 				}
-				check(self, dir, false, a2, nil, sc)
+				check(self, dir, "", a2, nil, sc)
 				pos = next
 			}
 		})
@@ -466,11 +487,11 @@ func main() {
 		{"first open + all stores + hang", func(string) int { return 0 }, len(h), "selfkill", limit},
 		{"first open + all stores + clean close", func(string) int { return 0 }, len(h), "close", limit},
 		{"reopen of a directory killed after 5 stores (recovery is killed), then stores 5..8 + close", func(dir string) int {
-			runChild(self, dir, 0, 5, "selfkill", false, 0)
+			runChild(self, dir, 0, 5, "selfkill", "", 0)
 			return 5
 		}, len(h), "close", limit},
 		{"reopen of a cleanly closed directory, then stores 4..8 + close", func(dir string) int {
-			runChild(self, dir, 0, 4, "close", false, 0)
+			runChild(self, dir, 0, 4, "close", "", 0)
 			return 4
 		}, len(h), "close", limit},
 	}
@@ -484,7 +505,7 @@ func main() {
 				dir := newDir()
 				defer os.RemoveAll(dir)
 				from := sw.prepare(dir)
-				acks, killed, phases, _ := runChild(self, dir, from, sw.to, sw.mode, false, n)
+				acks, killed, phases, _ := runChild(self, dir, from, sw.to, sw.mode, "", n)
 				if !killed {
 					return // N beyond the per-thread syscall count of this run
 				}
@@ -499,34 +520,74 @@ func main() {
 				}
 				sc := scenario{Name: "strace-injected SIGKILL", Steps: []string{sw.name, fmt.Sprintf("SIGKILL at write-path syscall #%d (per thread), phase %s, %d stores acknowledged", n, phase, acks)}, Acked: acks}
 				inflight := []int{acks}
-				check(self, dir, false, acks, inflight, sc)
+				check(self, dir, "", acks, inflight, sc)
 				// recovery of the killed directory is itself the next link: reopen, continue to the end, close, verify
-				a2, _, _, raw2 := runChild(self, dir, acks, len(h), "close", false, 0)
+				a2, _, _, raw2 := runChild(self, dir, acks, len(h), "close", "", 0)
 				sc.Steps = append(sc.Steps, "reopen, remaining stores, clean close")
 				sc.Acked = a2
 				if a2 != len(h) || !strings.Contains(raw2, "CLOSED") {
 					r.Violation("store does not reopen / accept writes after a kill (chained cycle)", raw2, sc)
 					return
 				}
-				check(self, dir, false, a2, nil, sc)
+				check(self, dir, "", a2, nil, sc)
 			})
 		}
 	}
+	// ---- family 4: values on the in-tree / value-log size boundary: kill at every store boundary, reopen,
+	// verify, continue to the end, clean close, verify; plus strace-injected kills inside the stores
+	he := history("edge")
+	for k := 1; k <= len(he); k++ {
+		k := k
+		jobs = append(jobs, func() {
+			dir := newDir()
+			defer os.RemoveAll(dir)
+			acks, killed, _, raw := runChild(self, dir, 0, k, "selfkill", "edge", 0)
+			atomic.AddInt64(&kills, 1)
+			sc := scenario{Name: "kill at store boundary, values of 1 MiB-1 / 1 MiB / 1 MiB+1 marshalled bytes", Steps: []string{fmt.Sprintf("stores 0..%d then SIGKILL", k)}, Acked: acks}
+			if !killed || acks != k {
+				r.Violation("child did not run as scripted (store or open failed before the kill)", raw, sc)
+				return
+			}
+			check(self, dir, "edge", acks, nil, sc)
+			a2, _, _, raw2 := runChild(self, dir, acks, len(he), "close", "edge", 0)
+			sc.Steps = append(sc.Steps, "reopen, remaining stores, clean close")
+			sc.Acked = a2
+			if a2 != len(he) || !strings.Contains(raw2, "CLOSED") {
+				r.Violation("store does not reopen / accept writes after a kill (chained cycle)", raw2, sc)
+				return
+			}
+			check(self, dir, "edge", a2, nil, sc)
+		})
+	}
+	for n := 1; n <= r.Pick(60, 300); n++ {
+		n := n
+		jobs = append(jobs, func() {
+			dir := newDir()
+			defer os.RemoveAll(dir)
+			acks, killed, _, _ := runChild(self, dir, 0, len(he), "close", "edge", n)
+			if !killed {
+				return
+			}
+			atomic.AddInt64(&kills, 1)
+			sc := scenario{Name: "strace-injected SIGKILL while storing values on the 1 MiB boundary", Steps: []string{fmt.Sprintf("SIGKILL at syscall #%d, %d stores acknowledged", n, acks)}, Acked: acks}
+			check(self, dir, "edge", acks, []int{acks}, sc)
+		})
+	}
 	// ---- thorough: bulk phase (memtable flush, value log, compaction) with kills
 	if r.Thorough() {
-		hb := history(true)
+		hb := history("bulk")
 		for n := 1; n <= 600; n += 2 {
 			n := n
 			jobs = append(jobs, func() {
 				dir := newDir()
 				defer os.RemoveAll(dir)
-				acks, killed, _, _ := runChild(self, dir, 0, len(hb), "close", true, n)
+				acks, killed, _, _ := runChild(self, dir, 0, len(hb), "close", "bulk", n)
 				if !killed {
 					return
 				}
 				atomic.AddInt64(&kills, 1)
 				sc := scenario{Name: "strace-injected SIGKILL in the bulk phase (70 x 1 MiB)", Steps: []string{fmt.Sprintf("SIGKILL at syscall #%d, %d stores acknowledged", n, acks)}, Acked: acks}
-				check(self, dir, true, acks, []int{acks}, sc)
+				check(self, dir, "bulk", acks, []int{acks}, sc)
 			})
 		}
 	}
